@@ -1,5 +1,9 @@
 import M3d.Basic
 import M3d.Model.MarchingMesh
+import M3d.Model.C2F
+import M3d.Model.SoupFast
+import M3d.Model.RectSpec
+import M3d.Model.McFan
 import M3d.Gen.McTable
 /-! Line-protocol handler for C01. Core-only. -/
 namespace M3d.Drv.C01
@@ -13,50 +17,18 @@ def showGV2 (v : GV2) : String := s!"{v.1}.{v.2}"
 
 def strLt (a b : String) : Bool := a < b
 
-/-! #### executable manifold deciders on id soups (used on the model mesh and on real outputs) -/
+/-! #### manifold deciders on id soups: `M3d.SoupFast` (sort/bucket based, proved equivalent to the
+`M3d.Surface` predicates in `M3d/Lemmas/SoupFast.lean`) — used on the model meshes and on real outputs -/
 
-/-- directed edges of a triangle soup over Nat ids -/
-def soupEdges (ts : List (Nat × Nat × Nat)) : List (Nat × Nat) :=
-  ts.flatMap fun t => [(t.1, t.2.1), (t.2.1, t.2.2), (t.2.2, t.1)]
+/-- closed + consistently oriented + edge-manifold + no degenerate triangle (ids below `n`) -/
+def balancedOk (n : Nat) (ts : List (Nat × Nat × Nat)) : Bool :=
+  SoupFast.idsBelow n ts && SoupFast.edgeBalancedFast n ts && Surface.noDegenerate ts
 
-def countP (es : Array (Nat × Nat)) (d : Nat × Nat) : Nat :=
-  es.foldl (fun n e => if e.1 == d.1 && e.2 == d.2 then n + 1 else n) 0
+/-- every vertex fan is one cycle -/
+def fanCyclesOk (n : Nat) (ts : List (Nat × Nat × Nat)) : Bool := SoupFast.fanConnectedFast n ts
 
-/-- every directed edge once, its reverse once; no degenerate triangle -/
-def edgeBalanced (ts : List (Nat × Nat × Nat)) : Bool :=
-  let es := (soupEdges ts).toArray
-  ts.all (fun t => t.1 != t.2.1 && t.2.1 != t.2.2 && t.1 != t.2.2) &&
-  es.all fun d => countP es d == 1 && countP es (d.2, d.1) == 1
-
-/-- fan at v is one cycle: arcs p→q of triangles (v,p,q); follow from the first arc. -/
-partial def fanCycle (arcs : List (Nat × Nat)) : Bool :=
-  match arcs with
-  | [] => true
-  | a0 :: _ =>
-    let rec go (cur : Nat) (rest : List (Nat × Nat)) (fuel : Nat) : Bool :=
-      match fuel with
-      | 0 => false
-      | fuel + 1 =>
-        match rest.find? (fun a => a.1 == cur) with
-        | none => rest.isEmpty && cur == a0.1
-        | some a => go a.2 (rest.erase a) fuel
-    go a0.1 arcs (arcs.length + 1)
-
-def fanConnected (ts : List (Nat × Nat × Nat)) : Bool :=
-  let vs := (ts.flatMap fun t => [t.1, t.2.1, t.2.2]).eraseDups
-  vs.all fun v =>
-    fanCycle (ts.filterMap fun t =>
-      if t.1 == v then some (t.2.1, t.2.2)
-      else if t.2.1 == v then some (t.2.2, t.1)
-      else if t.2.2 == v then some (t.1, t.2.1) else none)
-
-/-- intern arbitrary keys to Nat ids -/
-def intern (keys : List String) : List Nat :=
-  let (_, ids) := keys.foldl (fun (acc : List String × List Nat) k =>
-    match acc.1.idxOf? k with
-    | some i => (acc.1, acc.2 ++ [i])
-    | none => (acc.1 ++ [k], acc.2 ++ [acc.1.length])) ([], [])
-  ids
+/-- one incoming and one outgoing segment at every vertex, no loop segment -/
+def inOutOk (ss : List (Nat × Nat)) : Bool := SoupFast.inOutOneFast ss && Surface.noLoopSeg ss
 
 def tripleUp : List Nat → List (Nat × Nat × Nat)
   | a :: b :: c :: rest => (a, b, c) :: tripleUp rest
@@ -79,7 +51,10 @@ def handleMc (ws : List String) : Option String := do
     else b.getD ((x-1) + nx * ((y-1) + ny * (z-1))) false
   let mesh := mcMesh Gen.mcTable (nx+1) (ny+1) (nz+1) lab
   let strs := mesh.map fun t => s!"{showGV t.1},{showGV t.2.1},{showGV t.2.2}"
-  let ids := tripleUp (intern (mesh.flatMap fun t => [showGV t.1, showGV t.2.1, showGV t.2.2]))
+  let wx := 2 * nx + 3; let wy := 2 * ny + 3; let wz := 2 * nz + 3
+  let enc : GV → Nat := fun v => v.1 + wx * (v.2.1 + wy * v.2.2)
+  let ids : List (Nat × Nat × Nat) := mesh.map fun t => (enc t.1, enc t.2.1, enc t.2.2)
+  let n := wx * wy * wz
   let sorted := (strs.toArray.qsort strLt).toList
   -- orientation: exact signed volume (×6, doubled coordinates) of the model mesh is positive
   let vol : Int := mesh.foldl (fun acc t =>
@@ -89,16 +64,7 @@ def handleMc (ws : List String) : Option String := do
     let cx : Int := c.1; let cy : Int := c.2.1; let cz : Int := c.2.2
     acc + (ax * (by' * cz - bz * cy) - ay * (bx * cz - bz * cx) + az * (bx * cy - by' * cx))) 0
   let outward := mesh.isEmpty || vol > 0
-  some s!"balanced={boolStr (edgeBalanced ids)} fans={boolStr (fanConnected ids)} outward={boolStr outward} n={mesh.length} {";".intercalate sorted}"
-
-def inOutOneIds (segs : List (Nat × Nat)) : Bool :=
-  let a := segs.toArray
-  segs.all fun s =>
-    s.1 != s.2 &&
-    a.foldl (fun n t => if t.1 == s.1 then n + 1 else n) 0 == 1 &&
-    a.foldl (fun n t => if t.2 == s.1 then n + 1 else n) 0 == 1 &&
-    a.foldl (fun n t => if t.1 == s.2 then n + 1 else n) 0 == 1 &&
-    a.foldl (fun n t => if t.2 == s.2 then n + 1 else n) 0 == 1
+  some s!"balanced={boolStr (balancedOk n ids)} fans={boolStr (fanCyclesOk n ids)} outward={boolStr outward} n={mesh.length} {";".intercalate sorted}"
 
 /-- `ms nx ny bits` : marching squares of a lattice labelling. -/
 def handleMs (ws : List String) : Option String := do
@@ -110,14 +76,15 @@ def handleMs (ws : List String) : Option String := do
     if x = 0 || y = 0 || x > nx || y > ny then false else b.getD ((x-1) + nx * (y-1)) false
   let mesh := msMesh Gen.msTable (nx+1) (ny+1) lab
   let strs := mesh.map fun s => s!"{showGV2 s.1},{showGV2 s.2}"
-  let ids := pairUp (intern (mesh.flatMap fun s => [showGV2 s.1, showGV2 s.2]))
+  let w := 2 * nx + 3
+  let ids : List (Nat × Nat) := mesh.map fun s => (s.1.1 + w * s.1.2, s.2.1 + w * s.2.2)
   let sorted := (strs.toArray.qsort strLt).toList
   -- orientation: contained side on the right of every segment ⇒ shoelace sum negative
   let area2 : Int := mesh.foldl (fun acc s =>
     let x1 : Int := s.1.1; let y1 : Int := s.1.2; let x2 : Int := s.2.1; let y2 : Int := s.2.2
     acc + (x1 * y2 - x2 * y1)) 0
   let outward := mesh.isEmpty || area2 < 0
-  some s!"inout={boolStr (inOutOneIds ids)} outward={boolStr outward} n={mesh.length} {";".intercalate sorted}"
+  some s!"inout={boolStr (inOutOk ids)} outward={boolStr outward} n={mesh.length} {";".intercalate sorted}"
 
 /-- `bitmap w h bits` : Bitmap.Mesh. Points are quarter pixels, shifted by one pixel (+4). -/
 def handleBitmap (ws : List String) : Option String := do
@@ -163,14 +130,156 @@ def handleSoup3 (ws : List String) : Option String := do
   if ids.length ≠ 3 * nt then none
   let ts := tripleUp ids
   let vol := signedVol6 vs ts
-  some s!"balanced={boolStr (edgeBalanced ts)} fans={boolStr (fanConnected ts)} outward={boolStr (decide (vol > 0))}"
+  some s!"balanced={boolStr (balancedOk nv ts)} fans={boolStr (fanCyclesOk nv ts)} outward={boolStr (decide (vol > 0))}"
 
 /-- `soup2 ns <a b>*ns` : a real 2-D generator's output as id pairs. -/
 def handleSoup2 (ws : List String) : Option String := do
   let ns ← (← ws.head?).toNat?
   let ids ← parseNats ((ws.drop 1).take (2 * ns))
   if ids.length ≠ 2 * ns then none
-  some s!"inout={boolStr (inOutOneIds (pairUp ids))}"
+  let ss := pairUp ids
+  some s!"inout={boolStr (inOutOk ss)}"
+
+
+/-! #### coarse-to-fine kinds -/
+
+/-! multiset hash shared with harness/cmd/c01/c2f.go (FNV-1a over the integers of one item + a finaliser;
+items combined by wrapping sum and by xor) -/
+def fnvStep (h : UInt64) (v : Nat) : UInt64 := (h ^^^ v.toUInt64) * 1099511628211
+
+def finalize (h : UInt64) : UInt64 :=
+  let h := h ^^^ (h >>> 32)
+  let h := h * 0x9E3779B97F4A7C15
+  h ^^^ (h >>> 29)
+
+def mix (vals : List Nat) : UInt64 := finalize (vals.foldl fnvStep 14695981039346656037)
+
+def msetHash (items : List (List Nat)) : String :=
+  let (n, s, x) := items.foldl (fun (acc : Nat × UInt64 × UInt64) it =>
+    let m := mix it
+    (acc.1 + 1, acc.2.1 + m, acc.2.2 ^^^ m)) (0, 0, 0)
+  s!"n={n} s={hex64 s} x={hex64 x}"
+
+/-- labelling over lattice POINTS `0 … n-1` per axis, false elsewhere -/
+def lab3p (b : Array Bool) (nx ny nz : Nat) : Nat → Nat → Nat → Bool := fun x y z =>
+  if x < nx && y < ny && z < nz then b.getD (x + nx * (y + ny * z)) false else false
+
+def lab2p (b : Array Bool) (nx ny : Nat) : Nat → Nat → Bool := fun x y =>
+  if x < nx && y < ny then b.getD (x + nx * y) false else false
+
+/-- the outer layer of the fine labelling is outside (hypothesis `hb` of the watertightness theorems) -/
+def outerEmpty2 (lab : Nat → Nat → Bool) (nx ny : Nat) : Bool :=
+  (List.range nx).all (fun x => !lab x 0 && !lab x (ny - 1)) &&
+  (List.range ny).all (fun y => !lab 0 y && !lab (nx - 1) y)
+
+def outerEmpty3 (lab : Nat → Nat → Nat → Bool) (nx ny nz : Nat) : Bool :=
+  (List.range nz).all fun z => (List.range ny).all fun y => (List.range nx).all fun x =>
+    !(x == 0 || y == 0 || z == 0 || x + 1 == nx || y + 1 == ny || z + 1 == nz) || !lab x y z
+
+/-- `msc2f nx ny bits m R cnx cny cbits tag…` : `MarchingSquaresC2F` with `bigDelta = m·smallDelta` and an
+`extraSpace` of `E = R - m` fine steps; fine lattice `nx × ny` POINTS, coarse lattice `cnx × cny` points
+(both start one spacing below `s.Min()`).  The driver itself evaluates the documented cover
+`M3d.C2F.seenAll2 m R`; when it holds (and the outer layer is empty) the answer is the PLAIN fine mesh —
+`M3d.C01.c2f_ms_closed_under_documented_cover` + `M3d.C01MarginTie.c2f_ms_closed_code_margin` — with the
+verdicts of the deciders on it; otherwise `unseen` (the harness only emits cases for which it holds, so
+`unseen` shows up as a disagreement). -/
+def handleMsC2F (ws : List String) : Option String := do
+  let nx :: ny :: bits :: m :: r :: cnx :: cny :: cbits :: _ := ws | none
+  let nx ← nx.toNat?; let ny ← ny.toNat?; let m ← m.toNat?; let r ← r.toNat?
+  let cnx ← cnx.toNat?; let cny ← cny.toNat?
+  let b := bitsOf bits
+  let cb := bitsOf cbits
+  if b.size ≠ nx * ny || cb.size ≠ cnx * cny || m == 0 || r < m then none
+  let labF := lab2p b nx ny
+  if !outerEmpty2 labF nx ny then some "outer-layer-not-empty"
+  else if !M3d.C2F.seenAll2Fast m r labF (lab2p cb cnx cny) (nx - 1) (ny - 1) (cnx - 1) (cny - 1) then
+    some "unseen"
+  else
+    let mesh := msMesh Gen.msTable (nx - 1) (ny - 1) labF
+    let w := 2 * nx + 1
+    let ss : List (Nat × Nat) := mesh.map fun s => (s.1.1 + w * s.1.2, s.2.1 + w * s.2.2)
+    let area2 : Int := mesh.foldl (fun acc s =>
+      let x1 : Int := s.1.1; let y1 : Int := s.1.2; let x2 : Int := s.2.1; let y2 : Int := s.2.2
+      acc + (x1 * y2 - x2 * y1)) 0
+    let outward := mesh.isEmpty || area2 < 0
+    let h := msetHash (mesh.map fun s => [s.1.1, s.1.2, s.2.1, s.2.2])
+    some s!"inout={boolStr (inOutOk ss)} outward={boolStr outward} {h}"
+
+/-- `mcc2f nx ny nz bits m R cnx cny cnz cbits tag…` : `MarchingCubesC2F`, as `msc2f`
+(`M3d.C01.c2f_mc_edges_balanced_under_documented_cover`). -/
+def handleMcC2F (ws : List String) : Option String := do
+  let nx :: ny :: nz :: bits :: m :: r :: cnx :: cny :: cnz :: cbits :: _ := ws | none
+  let nx ← nx.toNat?; let ny ← ny.toNat?; let nz ← nz.toNat?; let m ← m.toNat?; let r ← r.toNat?
+  let cnx ← cnx.toNat?; let cny ← cny.toNat?; let cnz ← cnz.toNat?
+  let b := bitsOf bits
+  let cb := bitsOf cbits
+  if b.size ≠ nx * ny * nz || cb.size ≠ cnx * cny * cnz || m == 0 || r < m then none
+  let labF := lab3p b nx ny nz
+  if !outerEmpty3 labF nx ny nz then some "outer-layer-not-empty"
+  else if !M3d.C2F.seenAll3Fast m r labF (lab3p cb cnx cny cnz) (nx - 1) (ny - 1) (nz - 1)
+      (cnx - 1) (cny - 1) (cnz - 1) then
+    some "unseen"
+  else
+    let mesh := mcMesh Gen.mcTable (nx - 1) (ny - 1) (nz - 1) labF
+    let wx := 2 * nx + 1; let wy := 2 * ny + 1; let wz := 2 * nz + 1
+    let enc : GV → Nat := fun v => v.1 + wx * (v.2.1 + wy * v.2.2)
+    let ts : List (Nat × Nat × Nat) := mesh.map fun t => (enc t.1, enc t.2.1, enc t.2.2)
+    let n := wx * wy * wz
+    let vol : Int := mesh.foldl (fun acc t =>
+      let a := t.1; let b := t.2.1; let c := t.2.2
+      let ax : Int := a.1; let ay : Int := a.2.1; let az : Int := a.2.2
+      let bx : Int := b.1; let by' : Int := b.2.1; let bz : Int := b.2.2
+      let cx : Int := c.1; let cy : Int := c.2.1; let cz : Int := c.2.2
+      acc + (ax * (by' * cz - bz * cy) - ay * (bx * cz - bz * cx) + az * (bx * cy - by' * cx))) 0
+    let outward := mesh.isEmpty || vol > 0
+    let h := msetHash (mesh.map fun t =>
+      [t.1.1, t.1.2.1, t.1.2.2, t.2.1.1, t.2.1.2.1, t.2.1.2.2, t.2.2.1, t.2.2.2.1, t.2.2.2.2])
+    some s!"balanced={boolStr (balancedOk n ts)} fans={boolStr (fanCyclesOk n ts)} outward={boolStr outward} {h}"
+
+/-- `same <what> tag…` : the harness compared the coarse-to-fine output face-for-face (exact float
+coordinates) with the direct fine `Marching…Search` output of the same solid; the theorems
+`c2f_*_under_documented_cover` (through `M3d.C12.c2f_ms_sound / c2f_mc_sound`) demand `same`. -/
+def handleSame (_ws : List String) : Option String := some "same"
+
+/-! #### box sets (`RectSet.Mesh`) -/
+
+/-- `rectset nb <lo.x lo.y lo.z hi.x hi.y hi.z : 16-hex floats>*nb nv <x y z hex>*nv nt <a b c>*nt` : the boxes added to a
+`RectSet` and the real output of `Mesh()`.  The verdicts are computed from the boxes as a point set
+(`M3d.RectSpec`) and the real triangles only: closed manifold (proved deciders), exact signed volume
+positive, every triangle facing from the contained to the excluded side, winding number = membership at
+one generic sample point of every grid cell, volume = volume of the union. -/
+def handleRectSet (ws : List String) : Option String := do
+  let nb ← (← ws.head?).toNat?
+  let bc ← ((ws.drop 1).take (6 * nb)).mapM fun h => do
+    let n ← parseHex h
+    ratOfBits n.toUInt64
+  if bc.length ≠ 6 * nb then none
+  let rec boxes : List Rat → List RectSpec.Box
+    | a :: b :: c :: d :: e :: f :: r => { lo := (a, b, c), hi := (d, e, f) } :: boxes r
+    | _ => []
+  let bs := boxes bc
+  let ws := ws.drop (1 + 6 * nb)
+  let nv ← (← ws.head?).toNat?
+  let cs ← ((ws.drop 1).take (3 * nv)).mapM fun h => do
+    let n ← parseHex h
+    ratOfBits n.toUInt64
+  if cs.length ≠ 3 * nv then none
+  let rec trip : List Rat → List (Rat × Rat × Rat)
+    | a :: b :: c :: r => (a, b, c) :: trip r
+    | _ => []
+  let vs := (trip cs).toArray
+  let ws := ws.drop (1 + 3 * nv)
+  let nt ← (← ws.head?).toNat?
+  let ids ← parseNats ((ws.drop 1).take (3 * nt))
+  if ids.length ≠ 3 * nt then none
+  let ts := tripleUp ids
+  let tris := ts.map fun t => (vs.getD t.1 (0,0,0), vs.getD t.2.1 (0,0,0), vs.getD t.2.2 (0,0,0))
+  let sx := RectSpec.splits bs 0; let sy := RectSpec.splits bs 1; let sz := RectSpec.splits bs 2
+  let onGrid := vs.all fun p => sx.contains p.1 && sy.contains p.2.1 && sz.contains p.2.2
+  let v := RectSpec.judge bs tris onGrid
+  let vol := RectSpec.vol6 tris
+  if v.degenerate then some "degenerate-sample-position"
+  else some s!"balanced={boolStr (balancedOk nv ts)} fans={boolStr (fanCyclesOk nv ts)} outward={boolStr (decide (vol > 0))} tri={boolStr v.tri} wind={boolStr v.wind} vol={boolStr v.vol}"
 
 /-- `tablecheck` : which local obligations of Props/C01 fail on the regenerated tables, and where
 (used to name the failing configuration when a theorem no longer checks). -/
@@ -183,6 +292,7 @@ def handleTableCheck : String :=
     bad "mc_face_determined" (fun c => faceDetermined t c) 256 ++
     bad "mc_face_opposite" (fun i => faceOpposite t (i / 16) (i % 16)) 48 ++
     bad "mc_fan_is_outward_path" (fun c => fansOk c (getRow t c)) 256 ++
+    bad "mc_fan_local_ok" (fun c => rowWellFormed c (getRow t c) && fanPathsOk c (getRow t c)) 256 ++
     bad "ms_rows_wellformed" (fun c => msRowWellFormed c (getRow Gen.msTable c)) 16 ++
     bad "ms_role_rule" (fun c => msRoleRule c (getRow Gen.msTable c)) 16
   if l.isEmpty then "ok" else " ".intercalate l
@@ -195,6 +305,10 @@ def handleAll (ws : List String) : Option String :=
   | "bitmap" :: rest => handleBitmap rest
   | "soup3" :: rest => handleSoup3 rest
   | "soup2" :: rest => handleSoup2 rest
+  | "msc2f" :: rest => handleMsC2F rest
+  | "mcc2f" :: rest => handleMcC2F rest
+  | "same" :: rest => handleSame rest
+  | "rectset" :: rest => handleRectSet rest
   | _ => none
 
 end M3d.Drv.C01
